@@ -72,6 +72,7 @@ class WbDecWorld(World):
                          "sal": rng.range(1, 3) if rng.chance(0.15) else 0})
         return {"aw": aw, "dw": dw, "g": g, "feats": sorted(feats), "al": al, "subs": subs,
                 "feats_as": rng.choice(["str", "str", "enum"]),
+                "omit": int(rng.chance(0.3)),
                 "own_map": int(rng.chance(0.08)), "twin_decoder": int(rng.chance(0.1)),
                 "mid": rng.below(3) if rng.chance(0.12) else None,
                 "mid_how": rng.choice(["elab", "patterns"])}
@@ -136,8 +137,11 @@ class WbDecWorld(World):
             else (lambda fs: set(fs))
         dut = hw.must_accept("C07", f"wishbone.Decoder(addr_width={aw}, data_width={dw}, "
                              f"granularity={g}, features={sorted(feats)}, alignment={config['al']})",
-                             wishbone.Decoder, addr_width=aw, data_width=dw, granularity=g,
-                             features=spell(feats), alignment=config["al"])
+                             wishbone.Decoder,
+                             **hw.spelled(config.get("omit"),
+                                          {"alignment": 0, "features": set(), "granularity": dw},
+                                          addr_width=aw, data_width=dw, granularity=g,
+                                          features=spell(feats), alignment=config["al"]))
         if config.get("own_map"):
             # rarely used public setter: the user supplies the decoder's memory map
             dut.bus.memory_map = MemoryMap(addr_width=max(1, aw + gb), data_width=g,
